@@ -403,6 +403,19 @@ func aloneRingFamily(thorough bool) []rt {
 			}
 		}
 	}
+	// distance ladder: a repeat in every distance slot up to the capacity, both sides of every slot
+	// boundary (hash-table finder, zero filler; text filler for the binary-tree finder); runs cut at
+	// the maximum match length (the operations that can directly follow a match)
+	out = append(out, rt{AloneCfg{LC: 3, LP: 0, PB: 2, DictCap: 1 << 25, BufSize: 4096, Matcher: 0}, "ladder", 1<<25 + 4096})
+	out = append(out, rt{AloneCfg{LC: 0, LP: 2, PB: 0, DictCap: 1 << 23, BufSize: 4096, Matcher: 0}, "ladder", 1<<23 + 4096})
+	out = append(out, rt{AloneCfg{LC: 3, LP: 0, PB: 2, DictCap: 65536, BufSize: 4096, Matcher: 1}, "laddertext", 70000})
+	if thorough {
+		out = append(out, rt{AloneCfg{LC: 3, LP: 0, PB: 2, DictCap: 1 << 26, BufSize: 4096, Matcher: 0}, "ladder", 1<<26 + 4096})
+		out = append(out, rt{AloneCfg{LC: 3, LP: 0, PB: 2, DictCap: 1 << 27, BufSize: 4096, Matcher: 0}, "ladder", 1<<27 + 4096})
+	}
+	for k, p := range [][3]int{{3, 0, 2}, {0, 2, 0}, {1, 3, 2}, {4, 0, 4}, {0, 4, 0}, {2, 1, 3}} {
+		out = append(out, rt{AloneCfg{LC: p[0], LP: p[1], PB: p[2], DictCap: []int{4096, 65536}[k%2], BufSize: []int{4096, 273}[k/2%2], Matcher: k % 2}, "maxlenruns", 18000 + k})
+	}
 	return out
 }
 
